@@ -25,13 +25,12 @@
 EXTENDS GF2, Json, IOUtils
 CONSTANT NTRACES
 Traces == JsonDeserialize(IOEnv.TRACE_FILE)
-VARIABLES tid, l, rs, cs, nfail, drift, ood, oodw
-tvars == <<tid, l, rs, cs, nfail, drift, ood, oodw>>
+VARIABLES tid, l, rs, cs, vd
+tvars == <<tid, l, rs, cs, vd>>
 Tr == Traces[tid]
 tm == Tr.m
 tn == Tr.n
 tA == Tr.A
-Ev == Tr.events[l]
 Pow2(S) == \E k \in 0..30 : 2^k = Cardinality(S)
 
 CheckRref(ev) ==
@@ -98,22 +97,27 @@ IsOod(ev) == ev.op = "indep" /\ ~IndepDomain
 \* evidence only: outside the documented domain the answer differs from the reference
 OodDiffers(ev) == IsOod(ev) /\ (ev.exc # "" \/ (ev.val = 1) # (ev.b \notin cs))
 
-TInit == /\ tid \in 1..NTRACES /\ l = 1 /\ nfail = 0 /\ drift = 0 /\ ood = 0 /\ oodw = 0
-         /\ rs = RowSpace(Traces[tid].A, Traces[tid].m, Traces[tid].n)
-         /\ cs = ColSpace(Traces[tid].A, Traces[tid].m, Traces[tid].n)
-TStep == /\ l <= Len(Tr.events)
-         /\ LET c == Check(Ev) IN
-              /\ (c # "" => PrintT(<<"F", tid, l, c>>))
-              /\ nfail' = nfail + (IF c = "" THEN 0 ELSE 1)
-              /\ drift' = drift + (IF c = "" /\ IsDrift(Ev) THEN 1 ELSE 0)
-              /\ ood' = ood + (IF IsOod(Ev) THEN 1 ELSE 0)
-              /\ oodw' = oodw + (IF OodDiffers(Ev) THEN 1 ELSE 0)
-         /\ l' = l + 1 /\ UNCHANGED <<tid, rs, cs>>
-TDone == /\ l = Len(Tr.events) + 1
-         /\ PrintT(<<"V", tid, nfail, drift, ood, oodw>>)
-         /\ l' = l + 1 /\ UNCHANGED <<tid, rs, cs, nfail, drift, ood, oodw>>
-TNext == TStep \/ TDone
+\* the brute-force spaces are computed in a step of their own (initial states are generated by a single thread)
+TInit == /\ tid \in 1..NTRACES /\ l = 0 /\ vd = <<>> /\ rs = {} /\ cs = {}
+TPrep == /\ l = 0 /\ l' = 1
+         /\ rs' = RowSpace(tA, tm, tn)
+         /\ cs' = ColSpace(tA, tm, tn)
+         /\ UNCHANGED <<tid, vd>>
+\* all events of the trace are decided in one step (every Check is evaluated once, into vd); the next step counts and prints
+TAll == /\ l = 1 /\ l' = 2
+        /\ vd' = [k \in 1..Len(Tr.events) |-> Check(Tr.events[k])]
+        /\ UNCHANGED <<tid, rs, cs>>
+TDone == /\ l = 2 /\ l' = 3
+         /\ LET evs == Tr.events
+                 failing == {k \in 1..Len(evs) : vd[k] # ""}
+            IN /\ \A k \in failing : PrintT(<<"F", tid, k, vd[k]>>)
+               /\ PrintT(<<"V", tid, Cardinality(failing),
+                           Cardinality({k \in 1..Len(evs) : vd[k] = "" /\ IsDrift(evs[k])}),
+                           Cardinality({k \in 1..Len(evs) : IsOod(evs[k])}),
+                           Cardinality({k \in 1..Len(evs) : OodDiffers(evs[k])})>>)
+         /\ UNCHANGED <<tid, rs, cs, vd>>
+TNext == TPrep \/ TAll \/ TDone
 \* the spaces the verdicts are decided against are what they claim to be
-TypeOK == /\ Pow2(rs) /\ Pow2(cs) /\ Cardinality(rs) = Cardinality(cs)
-          /\ Zero(tn) \in rs /\ Zero(tm) \in cs
+TypeOK == l = 1 => /\ Pow2(rs) /\ Pow2(cs) /\ Cardinality(rs) = Cardinality(cs)
+                    /\ Zero(tn) \in rs /\ Zero(tm) \in cs
 =============================================================================
